@@ -49,11 +49,29 @@ def _fns():
     return {'markup': lambda s: mt(s), 'css': lambda s: ct(s, False), 'cssval': lambda s: ct(s, True)}
 
 
+INT_LIMIT = {'now': None}       # the interpreter's int <-> str digit limit as set by the harness for the current case (None: left at its default)
+
+
+def with_int_limit(limit, fn):
+    "runs fn() with sys.set_int_max_str_digits(limit) - what a host application may do at any time AFTER importing the library - and restores the setting"
+    import sys
+    old = sys.get_int_max_str_digits()
+    sys.set_int_max_str_digits(limit)
+    INT_LIMIT['now'] = limit
+    try:
+        return fn()
+    finally:
+        sys.set_int_max_str_digits(old)
+        INT_LIMIT['now'] = None
+
+
 def check(mode, s, cls, ctx, fns):
     from emmet.scanner import ScannerException
     ctx.ev(cls)
     r = core.call(fns[mode], s)
     case = {'mode': mode, 's': s}
+    if INT_LIMIT['now'] is not None:
+        case['int_max_str_digits'] = INT_LIMIT['now']
     if r[0] == 'exc':
         e = r[1]
         ctx.mon('oracle:error-position')
@@ -113,6 +131,19 @@ def run_shard(desc, ctx):
         for s in stretch.class_border_inputs(stretch.CSS_NUMBER_SLOTS):
             check('css', s, 'css:class-border', ctx, fns)
             check('cssval', s, 'css:class-border', ctx, fns)
+        # digit runs around the interpreter's int <-> str limit: at its default, lowered by the host at run time, and switched off
+        def limit_runs(limit):
+            eff = limit or 4300
+            for k in (eff - 1, eff, eff + 1, 2 * eff):
+                for digits in ('9' * k, '1' + '0' * (k - 1)):
+                    for t in stretch.MARKUP_NUMBER_SLOTS[:7] + ['a*%s>b', '(a+b)*%s']:
+                        check('markup', t.replace('%s', digits), 'markup:int-limit', ctx, fns)
+                    for t in ['p${%s}', 'p${%s:x}', 'm%s', 'm1.%s', 'c#f.%s', 'm-%s']:
+                        check('css', t.replace('%s', digits), 'css:int-limit', ctx, fns)
+                        check('cssval', t.replace('%s', digits), 'css:int-limit', ctx, fns)
+        limit_runs(None)
+        for lim in (640, 1000, 0):
+            with_int_limit(lim, lambda: limit_runs(lim))
     extra = ['é', 'Ж', '\t', '\n', '\xa0', '%', ',', '~', '`', '<', '&', ';', '?', '|', '_', 'Z', '9'] + stretch.CLASS_BORDER_CHARS
     for i in range(desc['n']):
         for mode in MODES:
@@ -136,6 +167,9 @@ def run_shard(desc, ctx):
 
 
 def replay(case, ctx):
+    if case.get('int_max_str_digits') is not None:
+        with_int_limit(case['int_max_str_digits'], lambda: check(case['mode'], case['s'], 'replay', ctx, _fns()))
+        return
     check(case['mode'], case['s'], 'replay', ctx, _fns())
 
 
